@@ -45,7 +45,7 @@ CLAIMED = {
         'a fault beyond changes nothing; LLIO.lossless_fault_never_partial -- on a spec-valid stream the result is the I/O error or exactly the specification pixels; RC.frame_schedule_independent -- same result for any two fill_buf '
         'schedules; BR / BRIO -- the bit reader at script level. (2) the container layer (Model/ContainerIO.v, call counts exact): CIO.container_io_refines_pure, CIO.container_fault_surfaces (any failure kind but UnexpectedEof: '
         'known finding F19, refuted for that kind with a replayed witness), getters likewise. (3) the encoder sink: same bytes for every split, a fault at a reached write gives an error with a prefix written. '
-        '(4) std read_exact / write_all contracts. (5) read_image of stills over the file reader (Model/ReadImageIO.v: range_reader, the VP8 decoder reads through Take incl. std read_to_end probing, lossless fill_buf through Take, read_alpha_chunk; call counts exact, c10glue correspondence): GIO.read_image_fault_surfaces / GIO.open_and_read_fault_surfaces. Decided on the implementation every run (not modelled over failing readers): read_frame payload reads -- 8 schedule classes x corpus, one injected fault at every I/O call index with comparison to the fault-free baseline.',
+        '(4) std read_exact / write_all contracts. (5) read_image of stills over the file reader (Model/ReadImageIO.v: range_reader, the VP8 decoder reads through Take incl. std read_to_end probing, lossless fill_buf through Take, read_alpha_chunk; call counts exact, c10glue correspondence): GIO.read_image_fault_surfaces / GIO.open_and_read_fault_surfaces; for lossy stills without ALPH also GIO2.glue_lossy_no_fault (= the pure glue model) and GIO2.glue_lossy_error_or_spec_pixels (any single fault: the I/O error or exactly the specification pixels). Decided on the implementation every run (not modelled over failing readers): read_frame payload reads -- 8 schedule classes x corpus, one injected fault at every I/O call index with comparison to the fault-free baseline.',
    note='Trusted: Coq kernel; Lib/IO.v is a model of std default methods (read_exact, write_all), not of the OS; Model/BitReader.v is a hand model tied by correspondence (scripts under whole / constant / random schedules through a hook); propagation of faults through every `?` of the crate is decided on the implementation, not proved.',
    technique='Coq proof (fault law by induction over the decoder model, schedule independence through the specification, I/O-call-exact container model) + correspondence incl. call counts + fault/schedule enumeration on the implementation',
    ref='DESIGN.md section 6 C10'),
